@@ -257,3 +257,118 @@ def canon(text, mapping):
         if old and old != new:
             text = re.sub(r"(?<![\w.])%s\b" % re.escape(old), new, text)
     return text
+
+
+# ----------------------------------------------------------------------
+# regex match results are used only where they are known to be a match
+# ----------------------------------------------------------------------
+
+_MATCH_CALLS = ("re.match", "re.search", "re.fullmatch", "self.match", "self.match_reg")
+_MATCH_USES = ("group", "groups", "start", "end", "span", "groupdict", "expand", "lastindex")
+
+
+def is_match_call(v):
+    if not isinstance(v, ast.Call):
+        return False
+    d = dotted(v.func) or ""
+    return d in _MATCH_CALLS or (isinstance(v.func, ast.Attribute) and v.func.attr in ("match", "search", "fullmatch"))
+
+
+def _is_name(e, name):
+    return isinstance(e, ast.Name) and e.id == name
+
+
+def _test_polarity(t, name):
+    """'pos' if the test being true implies `name` is a match, 'neg' if the test being false implies it, else None"""
+    if _is_name(t, name):
+        return "pos"
+    if isinstance(t, ast.Compare) and len(t.ops) == 1 and _is_name(t.left, name) and const(t.comparators[0]) is None and isinstance(t.comparators[0], ast.Constant):
+        return "pos" if isinstance(t.ops[0], ast.IsNot) else "neg" if isinstance(t.ops[0], ast.Is) else None
+    if isinstance(t, ast.UnaryOp) and isinstance(t.op, ast.Not):
+        p = _test_polarity(t.operand, name)
+        return {"pos": "neg", "neg": "pos"}.get(p)
+    if isinstance(t, ast.BoolOp) and isinstance(t.op, ast.And):
+        return "pos" if any(_test_polarity(v, name) == "pos" for v in t.values) else None
+    if isinstance(t, ast.BoolOp) and isinstance(t.op, ast.Or):
+        return "neg" if any(_test_polarity(v, name) == "neg" for v in t.values) else None
+    return None
+
+
+def _exits(body):
+    from ..engine import flow
+    return bool(body) and (flow.always_raises(body) or isinstance(body[-1], (ast.Return, ast.Continue, ast.Break)))
+
+
+def match_use_guarded(fn, use, name, reaching=None):
+    """is the use of the match object `name` at `use` (an Attribute node) only reached when it is a match"""
+    child = use
+    for a in ancestors(use):
+        if isinstance(a, (ast.If, ast.While)):
+            pol = _test_polarity(a.test, name)
+            inbody = any(contains(b, child) for b in a.body)
+            inelse = any(contains(b, child) for b in a.orelse) if isinstance(a, ast.If) else False
+            if (pol == "pos" and inbody) or (pol == "neg" and inelse):
+                return True
+        if isinstance(a, ast.IfExp):
+            pol = _test_polarity(a.test, name)
+            if (pol == "pos" and contains(a.body, child)) or (pol == "neg" and contains(a.orelse, child)):
+                return True
+        if isinstance(a, ast.BoolOp):
+            idx = [i for i, v in enumerate(a.values) if contains(v, child)]
+            if idx:
+                before = a.values[: idx[0]]
+                if isinstance(a.op, ast.And) and any(_test_polarity(v, name) == "pos" for v in before):
+                    return True
+                if isinstance(a.op, ast.Or) and any(_test_polarity(v, name) == "neg" for v in before):
+                    return True
+        for f in ("body", "orelse", "finalbody"):
+            lst = getattr(a, f, None)
+            if isinstance(lst, list) and any(s is child for s in lst):
+                i = [k for k, s in enumerate(lst) if s is child][0]
+                for s in lst[:i]:
+                    if isinstance(s, ast.If) and _exits(s.body) and _test_polarity(s.test, name) == "neg":
+                        return True
+        child = a
+        if isinstance(a, (ast.FunctionDef, ast.Lambda)):
+            break
+    # every definition that reaches the use is checked right where it is made: `m = ...match(...)` followed by `if not m ...: <exit>`
+    if reaching is not None:
+        try:
+            defs = reaching.defs_at(enclosing_stmt(use), name)
+        except AnalysisError:
+            return False
+        ok = bool(defs)
+        for d in defs:
+            par = getattr(d, "_parent", None)
+            nxt = None
+            for f in ("body", "orelse", "finalbody"):
+                lst = getattr(par, f, None)
+                if isinstance(lst, list) and any(s is d for s in lst):
+                    i = [k for k, s in enumerate(lst) if s is d][0]
+                    nxt = lst[i + 1] if i + 1 < len(lst) else None
+            if not (isinstance(nxt, ast.If) and _exits(nxt.body) and _test_polarity(nxt.test, name) == "neg"):
+                ok = False
+        return ok
+    return False
+
+
+def unguarded_match_uses(db, modnames):
+    """(function qualname, use node, name) for uses of a regex match result that may be None; also returns the number of uses seen"""
+    from ..engine import flow
+    out, n = [], 0
+    for modname in modnames:
+        for q, fn in db.functions_in(modname):
+            mv = set()
+            for s in walk_func(fn):
+                if isinstance(s, ast.Assign) and isinstance(s.targets[0], ast.Name) and is_match_call(s.value):
+                    mv.add(s.targets[0].id)
+            if not mv:
+                continue
+            rr = None
+            for u in walk_func(fn):
+                if isinstance(u, ast.Attribute) and isinstance(u.value, ast.Name) and u.value.id in mv and u.attr in _MATCH_USES:
+                    n += 1
+                    rr = rr or flow.Reaching(fn)
+                    if not match_use_guarded(fn, u, u.value.id, rr):
+                        out.append((q, u, u.value.id))
+    return out, n
